@@ -252,6 +252,8 @@ static struct {
 	uint64_t total;	/* all reports of the case, distinct or not */
 	struct xr_rep r[XR_MAX];
 } xr;
+/* tool level: the report is made in a forked child running main(); it goes to this descriptor as a line */
+static int xr_emit_fd = -1;
 static volatile int xr_sig;		/* signal that ended the case (0 none) */
 static volatile uintptr_t xr_sig_pc;
 
@@ -356,8 +358,6 @@ xt_label_last(char *buf, size_t bsz)
 	}
 }
 
-/* tool level: the report is made in a forked child running main(); it goes to this descriptor as a line */
-static int xr_emit_fd = -1;
 
 static void
 xr_add(const char *kind, uintptr_t pc)
@@ -412,6 +412,10 @@ xr_where(uintptr_t addr, size_t sz, int wr, char *buf, size_t bsz)
 	{
 		const char *zone = "unaddressable memory";
 		unsigned char sh = *(unsigned char*)((addr >> 3) + 0x7fff8000UL);
+		if (sh == 0 || (sh < 8 && (addr & 7U) + sz <= sh)) {
+			/* the first granule is fine: the access runs into the next one */
+			sh = *(unsigned char*)(((addr + sz - 1) >> 3) + 0x7fff8000UL);
+		}
 		switch (sh) {
 		case 0xf9: zone = "global red zone"; break;
 		case 0xf1: case 0xf2: case 0xf3: case 0xf5: case 0xf8: zone = "stack red zone"; break;
@@ -431,10 +435,39 @@ xr_where(uintptr_t addr, size_t sz, int wr, char *buf, size_t bsz)
 	}
 }
 
+/* reads that the compiler widened: gcc loads a packed 8-byte bit-field struct on the stack with one
+ * 8-byte load at an odd offset (e.g. "return d;" in dround.c), which overlaps the neighbouring stack red
+ * zone by a few bytes although the C code never leaves the object; libasan calls this "unknown-crash".
+ * Reading: not a defect of dateutils.  Such reports (read, size >= 2, first byte addressable, the rest in a
+ * STACK red zone) are skipped and counted. */
+static uint64_t xr_skipped_widened;
+NOASAN static int
+xr_widened_stack_load(uintptr_t addr, size_t sz, int wr)
+{
+	unsigned char s0, s1;
+	if (wr || sz < 2) {
+		return 0;
+	}
+	s0 = *(unsigned char*)((addr >> 3) + 0x7fff8000UL);
+	if (!(s0 == 0 || (s0 < 8 && (addr & 7U) < s0))) {
+		return 0;
+	}
+	s1 = *(unsigned char*)(((addr + sz - 1) >> 3) + 0x7fff8000UL);
+	return s1 == 0xf1 || s1 == 0xf2 || s1 == 0xf3;
+}
+
 NOASAN static void
 xr_asan(uintptr_t addr, size_t sz, int wr, uintptr_t pc)
 {
 	char kind[96];
+	if (xr_widened_stack_load(addr, sz, wr)) {
+		if (xr_skipped_widened++ == 0 && xr_emit_fd >= 0) {
+			if (write(xr_emit_fd, "\nC10SKIP widened\n", 18) < 0) {
+				;
+			}
+		}
+		return;
+	}
 	if (xr.total++) {
 		/* only the first report of a case is turned into a record: what follows is its consequence */
 		return;
@@ -772,6 +805,10 @@ static void
 xb_child_flush(int fd)
 {
 	FILE *f = fdopen(fd, "w");
+	if (xr_skipped_widened) {
+		*ex_ctr("skipped:compiler-widened load of a packed struct overlapping a stack red zone (gcc artifact, not a defect)") += xr_skipped_widened;
+		xr_skipped_widened = 0;
+	}
 	for (int i = 0; i < ex.nctr; i++) {
 		fprintf(f, "C\t%llu\t", (unsigned long long)ex.ctr_val[i]);
 		xb_tsv(f, ex.ctr_name[i]);
@@ -971,5 +1008,14 @@ idx2str(uint64_t idx, const char *alpha, char *buf)
 	return len;
 }
 
+
+/* every specifier of the grammar (info/format.texi, lib/token.c), with the modifier and suffix forms,
+ * truncated specifiers and an unknown letter */
+static const char *const xc_specs[] = {
+	"%F", "%T", "%Y", "%y", "%_y", "%m", "%d", "%u", "%w", "%D", "%j", "%c", "%U", "%V", "%C", "%W", "%A", "%a", "%_a", "%B", "%b", "%h", "%_b",
+	"%I", "%H", "%M", "%S", "%N", "%p", "%P", "%s", "%s%N", "%Z", "%Q", "%q", "%G", "%g", "%rY", "%Od", "%Om", "%OY", "%Oy", "%Oc", "%dth", "%mth", "%Yth",
+	"%db", "%dB", "%jb", "%%", "%t", "%n", "%", "%_", "%O", "%x", "%-d", "%_d", "% d", "%0d", "%-m", "%-H", "%-dth", "%-j", "x",
+};
+#define XC_NSPECS	((uint64_t)(sizeof(xc_specs) / sizeof(*xc_specs)))
 
 #endif	/* VERIF_C10_COMMON_H */
